@@ -127,9 +127,9 @@ PROPS["C16"] = {"theorems": [("GdslModel.Props.C16", "G.Traits." + t) for t in [
     "design_ref": "DESIGN.md section 7, C16"}
 
 PROPS["C19"] = {"theorems": [("GdslModel.Props.C19", "G.Own." + t) for t in ["inv_step", "inv_run", "released_once", "no_premature_release", "all_released_at_end", "edges_do_not_own", "held_alive"]], "oracles": ["c19"],
-    "rule": "seeded histories over the four flavours with drop-counting node values: build/use phase (nodes, clones, containers, edges, paths, search results, orderings held in slots; unconnected nodes come and go), hand-off phase (the original handles are dropped first, so results/containers/clones alone keep nodes alive), tear-down in random order; after every request the set of released values is compared with the model and with the handles actually held. distinct_nontrivial = number of histories.",
+    "rule": "seeded histories over the four flavours with drop-counting node values: build/use phase (nodes, clones, containers, edges, bfs/dfs paths and cycles, search results, pre/postorderings, found neighbours held in slots; connect, try_connect (accepted and refused), disconnect, isolate, queries from both ends; unconnected nodes come and go; duplicate-key inserts), hand-off phase (the original handles are dropped first, so results/containers/clones alone keep nodes alive), tear-down in random order; after every request the set of released values is compared with the model and with the handles actually held. distinct_nontrivial = number of histories.",
     "exhaustive": False,
-    "level_text": "Machine-checked proof (Lean 4) about the ownership-accounting model (strong handles held by program slots: node handles, edges, paths, search results, containers; adjacency entries weak): after every history a node value is released exactly when no slot mentions its key - at most once, never while a handle is held, always once the last handle is gone - for any graph shape (cycles, self-loops, still-connected nodes) and drop order; results of traversals only ever hold alive nodes (uses the BFS/DFS/ordering soundness theorems); connecting creates no handle. That Rc/Arc/Weak implement this accounting is trusted std semantics; the tie to the four flavours is the correspondence with drop-counting node values (released sets compared after every request of seeded histories with build, hand-off and tear-down phases) and a direct oracle on the handles actually held.",
+    "level_text": "Machine-checked proof (Lean 4) about the ownership-accounting model (strong handles held by program slots: node handles, edges, paths, search results, containers; adjacency entries weak): after every history a node value is released exactly when no slot mentions its key - at most once, never while a handle is held, always once the last handle is gone - for any graph shape (cycles, self-loops, still-connected nodes) and drop order; results of traversals (bfs/dfs paths and cycles, searches, pre/postorder, find_*) only ever hold alive nodes (uses the BFS/DFS/ordering soundness theorems); connect, try_connect, disconnect, isolate and every query create and drop no handle, whatever they do to the adjacency lists (the theorems quantify over an arbitrary effect function mutF). That Rc/Arc/Weak implement this accounting is trusted std semantics; the tie to the four flavours is the correspondence with drop-counting node values (released sets compared after every request of seeded histories with build, hand-off and tear-down phases) and a direct oracle on the handles actually held.",
     "level_note": CORR_NOTE, "technique": "Lean 4 invariant proof over the ownership-accounting model + model/implementation correspondence with drop-counting payloads + held-handle oracle", "design_ref": "DESIGN.md section 7, C19"}
 
 PROPS["C17"] = {"theorems": [("GdslModel.Props.C17", "G.Conc." + t) for t in ["deadlock_free_di", "deadlock_free_un", "deadlock_free_wf", "serialisable_di", "serialisable_un", "quiescent_mirror_di", "quiescent_mirror_un", "unlocked_not_serialisable"]], "oracles": ["c17"],
